@@ -24,11 +24,11 @@ import (
 )
 
 type handler struct {
-	st    *gstore.Store
-	g     gdbi.GraphInterface
-	docs  []*gdbi.DataElement
-	idOf  map[string]int
-	work  string
+	st   *gstore.Store
+	g    gdbi.GraphInterface
+	docs []*gdbi.DataElement
+	idOf map[string]int
+	work string
 }
 
 func New() sup.Handler { return &handler{} }
